@@ -78,5 +78,50 @@ impl<A: Float> Mat<A> {
 //@end
 }
 
+// ---- C20 as lemmas over the contracts proved above (reading: unit `deviation`): two observation matrices with the same
+// shape and the same entries (whatever their strides, memory order, offset or ownership) give matrices with the same real entries
+pub open spec fn same_mat<A: Float>(m1: Mat<A>, m2: Mat<A>) -> bool {
+    m1.nrows() == m2.nrows() && m1.ncols() == m2.ncols() && forall|i: int, k: int| 0 <= i < m1.nrows() && 0 <= k < m1.ncols() ==> (#[trigger] m1.at(i, k)).val() == m2.at(i, k).val()
+}
+proof fn lemma_same_rows<A: Float>(m1: Mat<A>, m2: Mat<A>, i: int)
+    requires same_mat(m1, m2), 0 <= i < m1.nrows()
+    ensures row(m1, i) == row(m2, i)
+{
+    assert(row(m1, i) =~= row(m2, i));
+}
+proof fn lemma_layout_cov<A: Float + FromPrimitive>(m1: Mat<A>, m2: Mat<A>, ddof: A, r1: Result<Array2<A>, MinMaxError>, r2: Result<Array2<A>, MinMaxError>)
+    requires
+        same_mat(m1, m2),
+        call_ensures(Mat::<A>::cov, (&m1, ddof), r1), call_ensures(Mat::<A>::cov, (&m2, ddof), r2),
+    ensures
+        r1 is Err ==> r1 == r2, r2 is Err ==> r1 == r2, // [C20]
+        r1 is Ok && r2 is Ok ==> r1->Ok_0.nrows() == r2->Ok_0.nrows() && r1->Ok_0.ncols() == r2->Ok_0.ncols()
+            && forall|i: int, j: int| 0 <= i < m1.nrows() && 0 <= j < m1.nrows() ==> (#[trigger] r1->Ok_0.at(i, j)).val() == r2->Ok_0.at(i, j).val(), // [C20]
+{
+    if r1 is Ok && r2 is Ok {
+        assert forall|i: int, j: int| 0 <= i < m1.nrows() && 0 <= j < m1.nrows() implies (#[trigger] r1->Ok_0.at(i, j)).val() == r2->Ok_0.at(i, j).val() by {
+            lemma_same_rows(m1, m2, i); lemma_same_rows(m1, m2, j);
+            assert(r2->Ok_0.at(i, j).val() == cov_def(m2, i, j, ddof.val()));
+        }
+    }
+}
+proof fn lemma_layout_pearson_correlation<A: Float + FromPrimitive>(m1: Mat<A>, m2: Mat<A>, r1: Result<Array2<A>, MinMaxError>, r2: Result<Array2<A>, MinMaxError>)
+    requires
+        same_mat(m1, m2),
+        call_ensures(Mat::<A>::pearson_correlation, (&m1,), r1), call_ensures(Mat::<A>::pearson_correlation, (&m2,), r2),
+    ensures
+        r1 is Err ==> r1 == r2, r2 is Err ==> r1 == r2, // [C20]
+        r1 is Ok && r2 is Ok ==> r1->Ok_0.nrows() == r2->Ok_0.nrows() && r1->Ok_0.ncols() == r2->Ok_0.ncols()
+            && forall|i: int, j: int| 0 <= i < m1.nrows() && 0 <= j < m1.nrows() && sigma_def(m1, i, 0real) * sigma_def(m1, j, 0real) != 0real ==> (#[trigger] r1->Ok_0.at(i, j)).val() == r2->Ok_0.at(i, j).val(), // [C20]
+{
+    if r1 is Ok && r2 is Ok {
+        assert forall|i: int, j: int| 0 <= i < m1.nrows() && 0 <= j < m1.nrows() && sigma_def(m1, i, 0real) * sigma_def(m1, j, 0real) != 0real implies (#[trigger] r1->Ok_0.at(i, j)).val() == r2->Ok_0.at(i, j).val() by {
+            lemma_same_rows(m1, m2, i); lemma_same_rows(m1, m2, j);
+            assert(sigma_def(m2, i, 0real) == sigma_def(m1, i, 0real) && sigma_def(m2, j, 0real) == sigma_def(m1, j, 0real));
+            assert(r2->Ok_0.at(i, j).val() == cov_def(m2, i, j, 0real) / (sigma_def(m2, i, 0real) * sigma_def(m2, j, 0real)));
+        }
+    }
+}
+
 } // verus!
 fn main() {}
